@@ -29,10 +29,12 @@ MANIFEST = {
 }
 RULE = ("Inputs per entry point: fixed junk list (empty, 1-3 symbols, NUL, non-ASCII, non-BMP, lone surrogate, "
         "over-long) + mutations of valid seeds (all truncations, extensions, splices, single-symbol flips, case "
-        "changes, payload-level corruption re-encoded with a valid checksum).")
+        "changes, payload-level corruption re-encoded with a valid checksum).  Entry points with a model are in addition "
+        "compared with it (cases 'model:<entry>') on the junk list, the seeds and a sample of the mutations (half of it "
+        "from the payload-level ones); inputs over 1500 symbols are model-compared for the path parsers only.")
 TRUSTED = ["the reflective census (dir(bip_utils) + name patterns) defines the obligation list"]
 ASSUMPTIONS = ["third-party libraries (coincurve, PyNaCl, cbor2, ecdsa) raise what they are observed to raise"]
-BUDGET = {"quick": 170, "thorough": 1500}
+BUDGET = {"quick": 200, "thorough": 1500}
 
 SEED = bytes(range(1, 65))
 ENTRIES = {}     # name -> dict(kind, call, seeds, slow)
@@ -137,6 +139,8 @@ def build():
     E("WifDecoder.Decode", "str", lambda s: WifDecoder.Decode(s),
       [wif, WifEncoder.Encode(bytes(range(1, 33)), pub_key_mode=WifPubKeyModes.UNCOMPRESSED), Base58Encoder.CheckEncode(b""),
        Base58Encoder.CheckEncode(b"\x80")])
+    # the bytes-typed second argument of the WIF decoder (finding C14-WIF-NETVER: ord() of a non-1-byte value)
+    E("WifDecoder.Decode[net_ver]", "bytes", lambda b: WifDecoder.Decode(wif, b), [b"\x80", b"\xef"])
     E("BytesUtils.FromHexString", "str", lambda s: BytesUtils.FromHexString(s), ["00ff10", "abc"])
     E("BytesUtils.FromBinaryStr", "str", lambda s: BytesUtils.FromBinaryStr(s), ["0101", "2"])
     E("IntegerUtils.FromBinaryStr", "str", lambda s: IntegerUtils.FromBinaryStr(s), ["0101"])
@@ -507,8 +511,8 @@ class Q:
 
 
 class M:
-    def __init__(self, model, impl=None, shape=None):
-        self.model, self.impl, self.shape = model, impl, shape
+    def __init__(self, model, impl=None, shape=None, merge=None):
+        self.model, self.impl, self.shape, self.merge = model, impl, shape, merge or {}
 
 
 def _props(mod):
@@ -516,11 +520,11 @@ def _props(mod):
     return importlib.import_module("props." + mod)
 
 
-def via(mod, fn, group, args=lambda x: [x], shape=None, census_impl=False):
+def via(mod, fn, group, args=lambda x: [x], shape=None, census_impl=False, merge=None):
     """Reuse FUNCS[fn] of props/<mod>.py (its model call and its normalising impl) on arguments built from x."""
     f = _props(mod).FUNCS[fn]
     return M(lambda m, x: f.model(Q(m, group), args(x)),
-             None if (census_impl or shape == "class") else (lambda x: f.impl(args(x))), shape)
+             None if (census_impl or shape == "class") else (lambda x: f.impl(args(x))), shape, merge)
 
 
 def words(x):
@@ -528,6 +532,7 @@ def words(x):
 
 
 MODEL_MAP = {}
+LONG_OK = {"Bip32PathParser.Parse", "SubstratePathParser.Parse", "SubstratePathElem.ChainCode"}
 
 
 def build_model_map():
@@ -585,6 +590,19 @@ def build_model_map():
     MM["ElectrumV2MnemonicDecoder.Decode"] = M(lambda m, x: m.call("mnem.ev2_decode", 1, NOLANG, NOLANG, 2, words(x)))
     MM["ElectrumV2MnemonicValidator.Validate"] = M(lambda m, x: m.call("mnem.ev2_decode", 1, NOLANG, NOLANG, 2, words(x)), shape="class")
     MM["ElectrumV2MnemonicValidator.IsValid"] = M(lambda m, x: m.call("mnem.ev2_is_valid", 1, NOLANG, NOLANG, 2, words(x)))
+    # the generators' bytes constructors (the word lists come back as lists of words)
+    MM["Bip39MnemonicGenerator.FromEntropy"] = M(lambda m, x: m.call("bip39.bip39_encode", _props("C01").EN, x),
+                                                 impl=lambda x: Bip39MnemonicGenerator().FromEntropy(x).ToList())
+    MM["MoneroMnemonicGenerator.FromEntropyNoChecksum"] = M(
+        lambda m, x: m.call("mnem.xmr_encode", c17.XL.index(MoneroLanguages.ENGLISH), 0, x),
+        impl=lambda x: MoneroMnemonicGenerator().FromEntropyNoChecksum(x).ToList())
+    MM["MoneroMnemonicGenerator.FromEntropyWithChecksum"] = M(
+        lambda m, x: m.call("mnem.xmr_encode", c17.XL.index(MoneroLanguages.ENGLISH), 1, x),
+        impl=lambda x: MoneroMnemonicGenerator().FromEntropyWithChecksum(x).ToList())
+    MM["AlgorandMnemonicGenerator.FromEntropy"] = M(lambda m, x: m.call("mnem.algo_encode", x),
+                                                    impl=lambda x: AlgorandMnemonicGenerator().FromEntropy(x).ToList())
+    MM["ElectrumV1MnemonicGenerator.FromEntropy"] = M(lambda m, x: m.call("mnem.ev1_encode", x),
+                                                      impl=lambda x: ElectrumV1MnemonicGenerator().FromEntropy(x).ToList())
     # ---- extended keys, SLIP-32, WIF, BIP-38 (C05, C13: group serbip)
     c05 = _props("C05")
     MM["Bip32KeyDeserializer.DeserializeKey"] = via("C05", "c05_deserialize", "serbip", lambda x: [c05.MAIN[0], c05.MAIN[1], x])
@@ -594,7 +612,12 @@ def build_model_map():
         MM[cname + ".FromExtendedKey"] = via("C05", "c05_from_extended", "serbip",
                                              (lambda cid_, ver_: lambda x: [cid_, ver_[0], ver_[1], x])(cid, ver))
     from bip_utils.slip.slip32 import Slip32KeyNetVersions  # noqa
-    MM["Slip32KeyDeserializer.DeserializeKey"] = via("C05", "slip32_deserialize", "serbip", lambda x: ["xpub", "xprv", x])
+    # The Bech32 decoder is a PARAMETER of the SLIP-32 model, answered by a reference decoder (oracles_serbip.py) that
+    # predates /repo's acceptance of an empty data part ("xprv1" + 6 checksum symbols): on such strings with a wrong
+    # checksum it says ValueError where the library says Bech32ChecksumError.  Which of the two the Bech32 layer raises
+    # is the Bech32 model's business (C10); here the two classes of that layer are merged.
+    MM["Slip32KeyDeserializer.DeserializeKey"] = via("C05", "slip32_deserialize", "serbip", lambda x: ["xpub", "xprv", x],
+                                                     merge={"Bech32ChecksumError": "ValueError"})
     MM["Bip32ChainCode"] = M(lambda m, x: m.call("serbip.c05_mk_key_data", Z(0), Z(0), x, bytes(4)), shape="class")
     MM["Bip32FingerPrint"] = M(lambda m, x: m.call("serbip.c05_mk_key_data", Z(0), Z(0), bytes(32), x), shape="class")
     MM["Bip32KeyNetVersions"] = M(lambda m, x: m.call("serbip.c05_mk_key_net_ver", x, x), shape="class")
@@ -675,20 +698,22 @@ build_model_map()
 def _model_func(name):
     mm = MODEL_MAP[name]
     call = ENTRIES[name]["call"]
-    if mm.shape == "class":
-        def model(m, a):
-            r = mm.model(m, a[0])
-            return r if r[0] == "err" else ("ok", 1)
+    cls_only = mm.shape == "class"
 
-        def impl(a):
-            (mm.impl or call)(a[0])
-            return 1
-    else:
-        def model(m, a):
-            return mm.model(m, a[0])
+    def model(m, a):
+        r = mm.model(m, a[0])
+        if r[0] == "err":
+            return ("err", mm.merge.get(r[1], r[1]))
+        return ("ok", 1) if cls_only else r
 
-        def impl(a):
-            return (mm.impl or call)(a[0])
+    def impl(a):
+        try:
+            v = (mm.impl or call)(a[0])
+        except Exception as e:  # noqa
+            if exn_name(e) in mm.merge:
+                raise {"ValueError": ValueError}[mm.merge[exn_name(e)]]("merged class") from e
+            raise
+        return 1 if cls_only else v
     return Func(model=model, impl=impl)
 
 
@@ -708,8 +733,9 @@ def generate(ctx):
     only = os.environ.get("VERIF_ONLY")
     names = sorted(n for n in ENTRIES if not only or any(o in n for o in only.split(",")))
     per = ctx.n(10, 600)
-    mcap = ctx.n(70, 1500)          # model comparisons per entry point beyond the junk list and the seeds
+    mcap = ctx.n(160, 1500)         # model comparisons per entry point beyond the junk list and the seeds
     n_model = 0
+    truncated = []
     for name in names:
         e = ENTRIES[name]
         deep = []                   # mutations below the checksum / word layer: they reach the inner error sites
@@ -750,8 +776,16 @@ def generate(ctx):
             tl = [x for x in rest if x not in dset]
             nd = min(len(dl), max(mcap // 2, mcap - len(tl)))
             sample = fixed | set(rng.sample(dl, nd)) | set(rng.sample(tl, min(len(tl), mcap - nd)))
+        # the extracted model's big-number arithmetic is quadratic: a 5000-symbol Base58 string costs ~17 s.  Over-long
+        # inputs (> LONG symbols) are model-compared only for the parsers whose digit-limit behaviour is the point
+        # (4300-digit int() limit), and there at most 8 of them; the fuzz obligation itself runs on all of them.
+        LONG = ctx.n(1500, 6000)
+        longs = [x for x in uniq if x in sample and len(x) > LONG]
+        keep_long = set(longs[:8]) if name in LONG_OK else set()
+        sample = {x for x in sample if len(x) <= LONG} | keep_long
         for x in uniq:
             if not ctx.time_left():
+                truncated.append(name)
                 break
             tag = "junk" if x in junk else "mut"
             ctx.run(name, [x], tag, trivial=(len(x) == 0))
@@ -762,6 +796,8 @@ def generate(ctx):
     ctx.dist["modelled"] = sorted(MODEL_MAP)
     ctx.dist["unmodelled"] = sorted(n for n in ENTRIES if n not in MODEL_MAP)
     ctx.dist["model_comparisons"] = n_model
+    if truncated:
+        ctx.note_exhaustive("TIME BUDGET EXHAUSTED: input streams cut short for %d entry points from %s on" % (len(truncated), truncated[0]))
     ctx.note_exhaustive("entry points compared with their model (%d of %d): %s" % (
         len(MODEL_MAP), len(ENTRIES), ", ".join(sorted(MODEL_MAP))))
     ctx.note_exhaustive("entry points covered by fuzzing only (%d): %s" % (
@@ -769,3 +805,21 @@ def generate(ctx):
 
 
 # --------------------------------------------------------------------------- known findings (predicates)
+
+WIF_VALID = WifEncoder.Encode(bytes(range(1, 33)))
+
+
+def wif_net_ver_len(fn, args, record):
+    """C14-WIF-NETVER: WifDecoder.Decode(valid string, net_ver) with len(net_ver) != 1 -> TypeError from ord()."""
+    return fn == "WifDecoder.Decode[net_ver]" and record.get("kind") == "direct" and len(args[0]) != 1 \
+        and "TypeError" in record.get("what", "")
+
+
+def wif_net_ver_len_replay():
+    try:
+        WifDecoder.Decode(WIF_VALID, b"")
+    except ValueError:
+        return None
+    except TypeError as ex:
+        return "WifDecoder.Decode(%r, b'') raises TypeError (%s)" % (WIF_VALID, ex)
+    return "WifDecoder.Decode(%r, b'') returned" % WIF_VALID
